@@ -37,6 +37,7 @@ class Verdict:
     seconds: float
     detail: str = ""
     tried: list[tuple[str, str, float]] = field(default_factory=list)
+    consts: dict[str, str] | None = None
 
     @property
     def ok(self) -> bool:
@@ -70,6 +71,17 @@ def _z3_worker(conn: Any) -> None:
             r = s.check()
             res = str(r)
             detail = s.reason_unknown() if res == "unknown" else ""
+            if res == "sat":
+                # ship the values of all constants so the parent need not re-solve
+                m = s.model()
+                consts = {}
+                for d in m.decls():
+                    if d.arity() == 0:
+                        try:
+                            consts[d.name()] = m[d].sexpr()
+                        except Exception:
+                            pass
+                detail = consts
         except Exception as e:  # parse errors etc.
             res, detail = "error", repr(e)
         conn.send((res, detail, time.time() - t0))
@@ -127,28 +139,14 @@ def run_cvc5(smt2: str, timeout_s: float) -> tuple[str, str, float]:
         os.unlink(path)
 
 
-def discharge(obs: list[Obligation], tier: str = "quick", jobs: int | None = None, both: bool = False) -> list[Verdict]:
-    """Decide every obligation.  ``both``: (thorough) also require cvc5 to agree on unsat
-    for string-free small queries is *not* demanded — cvc5 is consulted on unknowns."""
-    jobs = jobs or min(16, os.cpu_count() or 4)
-    zb, cb = Z3_BUDGET[tier], CVC5_BUDGET[tier]
-    verdicts: dict[int, Verdict] = {}
-    texts: dict[int, str] = {}
-    pending: list[int] = []
-    for i, ob in enumerate(obs):
-        # trivial goals are decided without a solver call (still counted, solver="simplify")
-        g = z3.simplify(ob.goal)
-        if z3.is_true(g) and ob.expect == "unsat":
-            verdicts[i] = Verdict(ob, "unsat", "simplify", 0.0)
-            continue
-        texts[i] = to_smt2(ob)
-        pending.append(i)
-    if not pending:
-        return [verdicts[i] for i in range(len(obs))]
+def _z3_pool(texts: dict[int, str], budgets: dict[int, float], jobs: int) -> dict[int, tuple[str, Any, float]]:
+    """Run z3 on the given queries in a pool of hard-killable worker processes."""
+    out: dict[int, tuple[str, Any, float]] = {}
+    if not budgets:
+        return out
     ctx = mp.get_context("spawn")
-    workers = [_Worker(ctx) for _ in range(min(jobs, len(pending)))]
-    queue = list(reversed(pending))
-    cvc5_queue: list[int] = []
+    workers = [_Worker(ctx) for _ in range(min(jobs, len(budgets)))]
+    queue = list(reversed(sorted(budgets)))
     active = 0
     try:
         while queue or active:
@@ -156,10 +154,9 @@ def discharge(obs: list[Obligation], tier: str = "quick", jobs: int | None = Non
                 if w.task is None and queue:
                     i = queue.pop()
                     w.task = i
-                    zbi = min(zb, 3) if obs[i].kind == "canary" else zb  # canaries: short budget, then bounded mode
-                    w.deadline = time.time() + zbi + 3
+                    w.deadline = time.time() + budgets[i] + 3
                     w.t0 = time.time()
-                    w.parent.send((texts[i], zbi))
+                    w.parent.send((texts[i], budgets[i]))
                     active += 1
             time.sleep(0.005)
             for w in workers:
@@ -182,12 +179,7 @@ def discharge(obs: list[Obligation], tier: str = "quick", jobs: int | None = Non
                     active -= 1
                 else:
                     continue
-                if res in ("sat", "unsat"):
-                    verdicts[i] = Verdict(obs[i], res, "z3-" + z3.get_version_string(), secs, detail, [("z3", res, secs)])
-                else:
-                    verdicts[i] = Verdict(obs[i], "unknown", "z3", secs, detail, [("z3", res + ":" + detail, secs)])
-                    if obs[i].kind != "canary":
-                        cvc5_queue.append(i)
+                out[i] = (res, detail, secs)
     finally:
         for w in workers:
             try:
@@ -195,18 +187,65 @@ def discharge(obs: list[Obligation], tier: str = "quick", jobs: int | None = Non
             except Exception:
                 pass
             w.kill()
-    if cvc5_queue:
+    return out
+
+
+def discharge(obs: list[Obligation], tier: str = "quick", jobs: int | None = None, both: bool = False) -> list[Verdict]:
+    """Decide every obligation.  Phase 1: z3 with a short budget on everything.  Phase 2 (what is
+    left): z3 with the full budget and cvc5 --strings-exp side by side; the first definitive answer
+    wins (the two solvers are complementary on strings: each decides queries the other times out on)."""
+    jobs = jobs or min(16, os.cpu_count() or 4)
+    zb, cb = Z3_BUDGET[tier], CVC5_BUDGET[tier]
+    verdicts: dict[int, Verdict] = {}
+    texts: dict[int, str] = {}
+    pending: list[int] = []
+    for i, ob in enumerate(obs):
+        # trivial goals are decided without a solver call (still counted, solver="simplify")
+        g = z3.simplify(ob.goal)
+        if z3.is_true(g) and ob.expect == "unsat":
+            verdicts[i] = Verdict(ob, "unsat", "simplify", 0.0)
+            continue
+        texts[i] = to_smt2(ob)
+        pending.append(i)
+    if not pending:
+        return [verdicts[i] for i in range(len(obs))]
+
+    def record(i: int, res: str, detail: Any, secs: float, solver: str) -> None:
+        v = verdicts.get(i)
+        tried = (solver.split("-")[0], res if res in ("sat", "unsat") else f"{res}:{detail if isinstance(detail, str) else ''}", round(secs, 3))
+        if v is None:
+            v = verdicts[i] = Verdict(obs[i], "unknown", solver.split("-")[0], 0.0, "", [])
+        v.tried.append(tried)
+        v.seconds += secs
+        if res in ("sat", "unsat") and v.result == "unknown":
+            v.result, v.solver = res, solver
+            v.consts = detail if isinstance(detail, dict) else None
+
+    zver = "z3-" + z3.get_version_string()
+    short = 2.0
+    r1 = _z3_pool(texts, {i: min(short, zb) for i in pending}, jobs)
+    for i, (res, detail, secs) in r1.items():
+        record(i, res, detail, secs, zver)
+    left = [i for i in pending if verdicts[i].result == "unknown"]
+    # canaries are expected to be `sat`; an undecided one goes to bounded mode rather than to long solver runs
+    left = [i for i in left if obs[i].kind != "canary"]
+    if left:
         from concurrent.futures import ThreadPoolExecutor
 
         with ThreadPoolExecutor(max_workers=jobs) as ex:
-            futs = {i: ex.submit(run_cvc5, texts[i], cb) for i in cvc5_queue}
+            for i, f in {i: ex.submit(run_cvc5, texts[i], 3.0) for i in left}.items():
+                res, detail, secs = f.result()
+                record(i, res, detail, secs, "cvc5-1.0.3")
+        left = [i for i in left if verdicts[i].result == "unknown"]
+    if left:
+        with ThreadPoolExecutor(max_workers=max(2, jobs // 2)) as ex:
+            futs = {i: ex.submit(run_cvc5, texts[i], cb) for i in left}
+            r2 = _z3_pool(texts, {i: zb for i in left}, max(2, jobs // 2))
+            for i, (res, detail, secs) in r2.items():
+                record(i, res, detail, secs, zver)
             for i, f in futs.items():
                 res, detail, secs = f.result()
-                v = verdicts[i]
-                v.tried.append(("cvc5", res + (":" + detail if detail else ""), secs))
-                if res in ("sat", "unsat"):
-                    v.result, v.solver, v.detail = res, "cvc5-1.0.3", detail
-                v.seconds += secs
+                record(i, res, detail, secs, "cvc5-1.0.3")
     return [verdicts[i] for i in range(len(obs))]
 
 
@@ -222,12 +261,64 @@ def unescape_z3_string(s: str) -> str:
     return re.sub(r"\\u\{([0-9a-fA-F]+)\}|\\u([0-9a-fA-F]{4})", rep, s)
 
 
+def _consts_of(t: Any) -> dict[str, Any]:
+    out: dict[str, Any] = {}
+    seen: set[int] = set()
+    stack = [t]
+    while stack:
+        x = stack.pop()
+        if x.get_id() in seen:
+            continue
+        seen.add(x.get_id())
+        if z3.is_const(x) and x.decl().kind() == z3.Z3_OP_UNINTERPRETED:
+            out[x.decl().name()] = x
+        stack.extend(x.children())
+    return out
+
+
 class Model:
-    def __init__(self, m: Any) -> None:
+    """Model view: from the constant values shipped by the worker when possible, otherwise
+    (uninterpreted functions involved) from a z3 model re-derived in-process."""
+
+    def __init__(self, m: Any = None, consts: dict[str, str] | None = None, ob: Obligation | None = None) -> None:
         self.m = m
+        self.consts = consts
+        self.ob = ob
+
+    def _full(self) -> Any:
+        if self.m is None and self.ob is not None:
+            s = z3.Solver()
+            s.set("timeout", 30000)
+            for c in self.ob.pc:
+                s.add(c)
+            s.add(z3.Not(self.ob.goal))
+            if s.check() == z3.sat:
+                self.m = s.model()
+            self.ob = None
+        return self.m
 
     def term(self, t: Any) -> Any:
-        return self.m.eval(t, model_completion=True)
+        if self.consts is not None:
+            subs = []
+            ok = True
+            for name, c in _consts_of(t).items():
+                if name not in self.consts:
+                    ok = False
+                    break
+                try:
+                    val = z3.parse_smt2_string(f"(declare-const v {c.sort().sexpr()})(assert (= v {self.consts[name]}))")[0].arg(1)
+                except Exception:
+                    ok = False
+                    break
+                subs.append((c, val))
+            if ok:
+                r = z3.simplify(z3.substitute(t, *subs) if subs else t)
+                if z3.is_int_value(r) or z3.is_string_value(r) or z3.is_true(r) or z3.is_false(r) or z3.is_fp_value(r) or z3.is_bv_value(r):
+                    return r
+        m = self._full()
+        if m is None:
+            raise ValueError("no model available")
+        return m.eval(t, model_completion=True)
 
     def value(self, v: Any, max_len: int = 64) -> Any:
         """Concretise a symbolic value under the model."""
@@ -259,6 +350,14 @@ class Model:
         if isinstance(v, V.SMap):
             return "<symbolic map>"
         return v
+
+
+def model_for(v: Verdict) -> Model | None:
+    if v.result != "sat":
+        return None
+    if v.consts is not None:
+        return Model(None, v.consts, v.ob)
+    return get_model(v.ob)
 
 
 def get_model(ob: Obligation, timeout_s: float = 30.0) -> Model | None:
